@@ -193,17 +193,45 @@ func (e *Env) Probe(st *Step) {
 				sort.Sort(sort.Reverse(sort.IntSlice(order)))
 			}
 		}
+		// everything the pool pays out in this claim-all round, per denom (the volume the 18-digit resolution applies to)
+		paid := map[string]*big.Int{}
+		userBal := func() map[string]*big.Int {
+			m := map[string]*big.Int{}
+			for ui := range e.Users {
+				for _, c := range e.App.BankKeeper.GetAllBalances(cctx, e.user(AccUserBase+ui)) {
+					if m[c.Denom] == nil {
+						m[c.Denom] = new(big.Int)
+					}
+					m[c.Denom].Add(m[c.Denom], c.Amount.BigInt())
+				}
+			}
+			return m
+		}
 		for _, i := range order {
 			dl := &post.Dels[i]
 			if post.SVal(dl.Val) == nil || post.Asset(dl.Denom) == nil {
 				continue
 			}
+			b0 := userBal()
 			res, _ := protect(func() error { return e.claimOn(cctx, dl.Del, dl.Val, dl.Denom) })
+			detail := lastDetail
+			for dn, x := range userBal() {
+				d := new(big.Int).Set(x)
+				if b0[dn] != nil {
+					d.Sub(d, b0[dn])
+				}
+				if d.Sign() > 0 {
+					if paid[dn] == nil {
+						paid[dn] = new(big.Int)
+					}
+					paid[dn].Add(paid[dn], d)
+				}
+			}
 			if strings.Contains(res, "insufficient_funds") {
 				cls := "pool_short"
 				if e.Mon.ValueChanged {
 					cls = "pool_short_after_value_change" // D6: payout uses current token value
-				} else if a := post.Asset(dl.Denom); a != nil && a.T.Cmp(bigE15) >= 0 || precisionStressed(post) || e.precisionShortfall(post, lastDetail) {
+				} else if a := post.Asset(dl.Denom); a != nil && a.T.Cmp(bigE15) >= 0 || precisionStressed(post) || e.precisionShortfall(post, detail) || e.roundShortfall(post, detail, paid) {
 					cls = "pool_short_large_stake" // the 18-digit per-token index rounds up; times a large stake
 				}
 				st.pfail("C12", cls, "claim of (%d,%d,%d) fails when everybody claims: pool holds %s", dl.Del, dl.Val, dl.Denom, e.App.BankKeeper.GetAllBalances(cctx, e.acctAddr[AccPool]))
@@ -397,6 +425,30 @@ func (e *Env) precisionShortfall(s *State, detail string) bool {
 	}
 	return short.Cmp(bound) <= 0
 }
+
+// roundShortfall: in a claim-all round the pool ends short by no more than the resolution bound times everything paid
+// out in that denom during the round (an over-entitled large claim earlier in the round starves a small one later)
+func (e *Env) roundShortfall(s *State, detail string, paid map[string]*big.Int) bool {
+	m := reShortDenom.FindStringSubmatch(detail)
+	if m == nil {
+		return false
+	}
+	have, want, dn := bi(m[1]), bi(m[3]), m[2]
+	vol := new(big.Int).Set(want)
+	if paid[dn] != nil {
+		vol.Add(vol, paid[dn])
+	}
+	bound := resolutionBound(s)
+	if e.Mon.MaxResolution != nil && e.Mon.MaxResolution.Cmp(bound) > 0 {
+		bound = e.Mon.MaxResolution
+	}
+	allow := new(big.Rat).Mul(bound, new(big.Rat).SetInt(vol))
+	allow.Add(allow, big.NewRat(int64(len(s.Dels)+1), 1)) // one unit of rounding per claim
+	short := new(big.Rat).SetInt(new(big.Int).Sub(want, have))
+	return short.Cmp(allow) <= 0
+}
+
+var reShortDenom = regexp.MustCompile(`spendable balance (\d+)(\S*) is smaller than (\d+)`)
 
 // resolutionBound: Σ over (validator, asset) holdings of 8e-18 / (validator's fraction of the asset's shares)
 func resolutionBound(s *State) *big.Rat {
